@@ -243,7 +243,7 @@ def gen_replay(ctx, mod, constants, depth, adapter, acfg=None, invariants=(), pr
             if not handled:
                 total["fails"] += 1
                 ctx.violation("replay-mismatch", dict(f, module=mod, constants=constants,
-                                                      acfg=acfg))
+                                                      acfg=repr(acfg)[:2000]))
     ctx.traces += total["edges"] - total["skipped"]
     ctx.evaluations += total["edges"]
     for i in range(total["distinct"]):
@@ -288,10 +288,11 @@ def trace_validate(ctx, mod, constants, traces, label="trace", extra_defs="", cl
         if i not in accepted:
             pos = rejects.get(i, 0)
             tr = traces[i - 1]
-            detail = {"module": mod, "constants": constants, "trace_index": i,
-                      "rejected_at": pos,
-                      "prefix": jsonable(tr[max(0, pos - 4):pos]),
-                      "full_ops": jsonable([e["o"] for e in tr[:pos]])}
+            detail = {"module": mod, "trace_index": i, "rejected_at": pos,
+                      "rejected_event": jsonable(tr[pos - 1]) if 0 < pos <= len(tr) else None,
+                      "previous_events": jsonable(tr[max(0, pos - 4):max(0, pos - 1)]),
+                      "ops_so_far": jsonable([e["o"] for e in tr[:pos]]),
+                      "constants": constants}
             handled = classify(ctx, detail) if classify else False
             if not handled:
                 bad.append((i, pos))
